@@ -206,6 +206,9 @@ var c17Idioms = []string{
 	"let $p = rs in let $q = xs in [$p[%N].id, $q[%N]]", "let $p = a in let $q = (let $p = [$p, b] in $p) in $q", "let $p = rs[?%C] in $p | [%N]", "let $i = %L in xs[?@ > $i]", "let $c = `1` in rs[?k == $c].id",
 	"rs[?%C] | [0] | id", "rs[?%C] | [0].ys[%N]", "rs[*].ys[%N]", "rs[*].ys | [%N]", "rs[*].ys[] | [%N]", "rs[?%C].ys[?@] | [%N]", "rs[*].ys[?@][%N]", "rs[?%C] | [*].id | [%N]",
 	"o.a || o.b || `9`", "o.b || o.a", "not_null(o.b, o.a)", "o.b && o.a", "!(!o.a)", "{p: o.a, q: o.b}.p", "[o.a, o.b][%N]", "keys(o) | sort(@) | [%N]", "contains(keys(o), 'a')", "merge(o, {c: %L}).c", "values(o) | length(@)",
+	// "find the record by key, take a field": the field is missing (null) in some of the matches
+	"rs[?%C].k | [%N]", "rs[?%C].n | [%N]", "rs[?s == 'a'].n | [0]", "rs[?s == 'a'].k | [0]", "rs[?s == 'b'].n | [%N]", "rs[?k == `7`].n | [0]", "rs[?n == `1`].k | [0]", "rs[?s == 'a'].n | [-1]", "rs[?s == 'a'].ys[1] | [0]", "(rs[?s == 'a'].n)[0]",
+	"rs[?s == 'a'].n | [0] || 'none'", "rs[?s != 'a'].k | [0]", "rs[?s == 'c'].n | [1]", "rs[?s == 'a'].[n] | [0]", "rs[?s == 'a'].{n: n} | [0]",
 	"join(',', rs[?s].s)", "join(',', sort(rs[?s].s))", "rs[?s == 'a'] | [0].id", "rs[?s == 'a'][0]", "contains(rs[*].s, 'a')", "rs[*].s | [?@ == 'a'] | length(@)", "xs[?@ == `3`] | [%N]", "xs[?@ == %L]", "type(xs | [%N])", "xs[%N] == (xs | [%N])",
 }
 
